@@ -86,7 +86,8 @@ INTS = [0, 1, -1, 2, 3, 5, 7, 10, 12, -4, 100, 2**31, -(2**31), 2**62, -(2**62),
 SMALL_INTS = [0, 1, -1, 2, 3, 5, 7, 10, 12, -4]
 FLOATS = [0.0, 1.0, -1.5, 2.5, 1e-9, 3.0, 0.5, 1e300, -0.0, 1e3, 2.0**53, -2.0, 1e-300]
 TYPES = [int, float, str, list, dict, bool]
-KEY_STRS = ["a", "b", "c", "abc", "1", "x y", "", "path", "A", "0", "true", "a.b", "a/b", "a\\b", "-1", "ß", "1.0"]
+KEY_STRS = ["a", "b", "c", "abc", "1", "x y", "", "path", "A", "0", "true", "a.b", "a/b", "a\\b", "-1", "ß", "1.0",
+            "value", "key", "keys", "k" * 90]
 
 
 def text(r):
@@ -216,10 +217,32 @@ def twin_path(r, path):
     return PathT(parts)
 
 
+BIG_SIZES = [9, 12, 17, 33, 40, 65, 100, 129, 257, 300]
+
+
+def big_n(r):
+    """A container size around the usual thresholds (8, 16, 32, 64, 100, 128, 256)."""
+    return r.choice(BIG_SIZES[: 6 if r.coin(70) else len(BIG_SIZES)])
+
+
+def deep_chain(r, sc=scalar):
+    """A document that is one long chain of single-child containers (depth 7-10)."""
+    node = sc(r) if r.coin() else [sc(r), sc(r)]
+    for _ in range(r.between(7, 10)):
+        node = [node] if r.coin(35) else {key(r) if r.coin(30) else r.choice(KEY_STRS): node}
+    if not isinstance(node, (list, dict)) or not node:
+        node = [node]
+    return node
+
+
 def list_doc(r, depth=3, sc=scalar):
-    if r.pct() < 4:
+    c0 = r.pct()
+    if c0 < 4:
         # occasionally a long, flat container (size-dependent behaviour, e.g. a fast path)
-        return [sc(r) for _ in range(r.between(9, 40))]
+        return [sc(r) for _ in range(big_n(r))]
+    if c0 < 6 and depth >= 3:
+        d = deep_chain(r, sc)
+        return d if isinstance(d, list) else [d]
     out = [value(r, depth - 1, sc) for _ in range(r.between(1, 4))]
     if r.pct() < 10:
         out.insert(r.below(len(out) + 1), r.choice(out))  # a duplicate item (the same object twice)
@@ -232,10 +255,14 @@ def list_doc(r, depth=3, sc=scalar):
 
 def map_doc(r, depth=3, sc=scalar):
     d = {}
-    if r.pct() < 4:
-        for i in range(r.between(9, 24)):
+    c0 = r.pct()
+    if c0 < 4:
+        for i in range(big_n(r)):
             d[f"k{i}" if r.coin(70) else i] = sc(r)
         return d
+    if c0 < 6 and depth >= 3:
+        ch = deep_chain(r, sc)
+        return ch if isinstance(ch, dict) else {r.choice(KEY_STRS): ch}
     for _ in range(r.between(1, 4)):
         d[key(r)] = value(r, depth - 1, sc)
     if r.pct() < 15:
@@ -352,8 +379,8 @@ def leaf_args(r, kind, pre, name, mode="any", jsonable=False):
             if wild:
                 return anyv()
             c = r.pct()
-            if c < 6:
-                return [sc() for _ in range(r.between(16, 24))]  # a long membership list
+            if c < 7:
+                return [sc() for _ in range(r.choice([16, 24, 33, 40, 65]))]  # a long membership list
             if c < 60:
                 return [sc() for _ in range(r.between(0, 4))]
             if c < 80:
@@ -538,6 +565,8 @@ def guided_path(r, doc_, max_len=4, miss=18, mode="typed", labels=False, prim_on
     """A path drawn by walking the document, so that selections are non-empty most of
     the time; with probability `miss` % per part a blind part is injected."""
     parts = []
+    if r.pct() < 4:
+        max_len = max(max_len, 10)  # occasionally as long as the deepest document
     n = r.between(min_len, max_len)
     for part_i in range(n):
         frontier = [c for c, _ in model.ref_select(parts, doc_)] if parts else [doc_]
@@ -580,6 +609,10 @@ def guided_path(r, doc_, max_len=4, miss=18, mode="typed", labels=False, prim_on
                 cnd = r.choice(["in_", "equal_to", "not_in"])
                 if cnd == "equal_to":
                     kc = Leaf("key", None, "equal_to", kwargs={"value": k})
+                    if ct == "mol" and isinstance(k, int) and r.coin():
+                        # the same value as index condition: equivalent to the primitive part k
+                        parts.append(Part(ct, key=kc, index=Leaf("index", None, "equal_to", kwargs={"value": k}), label=lab))
+                        continue
                 else:
                     kc = Leaf("key", None, cnd, kwargs={"value": r.subset(ks)})
                 if jsonable and not _jsonable(kc.kwargs["value"]):
